@@ -109,7 +109,12 @@ func paramChange(sel, val int, epoch beacon.EpochTime) *governance.ProposalConte
 	case 30:
 		return mk(scheduler.ModuleName, scheduler.ConsensusParameterChanges{MaxValidators: &n})
 	case 31:
-		m := 1 + val%2
+		// (the minimum alone, or minimum and maximum together in one proposal)
+		m := 1 + val%3
+		if (val/3)%2 == 1 {
+			mx := []int{1, 2, 3, 5}[(val/6)%4]
+			return mk(scheduler.ModuleName, scheduler.ConsensusParameterChanges{MinValidators: &m, MaxValidators: &mx})
+		}
 		return mk(scheduler.ModuleName, scheduler.ConsensusParameterChanges{MinValidators: &m})
 	case 32:
 		d := scheduler.VotingPowerDistribution(val % 3)
